@@ -1,6 +1,8 @@
 """C19 — ECDSA recovery returns the algebraically determined key or refuses."""
 from __future__ import annotations
 
+import hashlib
+
 from ..model import secp as MS
 from ..monitors import secp as mon
 from ..monitors.install import import_all
@@ -25,7 +27,7 @@ def shards(tier):
 
 def required_classes(tier):
     return ["refuse:v", "refuse:r=0 mod N", "refuse:s=0 mod N", "refuse:r not an x-coordinate", "return", "return:r>=N", "return:s>=N",
-            "return:identity", "return:high-s", "r=N", "W4:exhaustive"]
+            "return:identity", "return:high-s", "r=N", "W4:exhaustive", "soak:distinct-hashes"]
 
 
 def one(rec, s, h, v, r, sv, tag=None):
@@ -122,6 +124,24 @@ def run(rec):
             continue
         one(rec, s, z.to_bytes(32, "big"), 27 + (R[1][0] & 1), r, sv)
     w4_small_curves(rec, s, quick)
+    # soak on the real curve: more distinct hashes than a bounded table could hold, with the first ones re-probed afterwards
+    if rec.shard == 1 or not quick:
+        from .common import soak_size, soak_then_reprobe
+        d0 = rng.randrange(1, N)
+        probes_h = [rng.randbytes(32) for _ in range(3)]
+        sigs0 = [MS.sign(h, d0.to_bytes(32, "big"))[:3] for h in probes_h]
+        v1, r1, s1 = sigs0[0]
+
+        def distinct_hashes():
+            j = 0
+            while True:
+                j += 1
+                h = hashlib.sha256(b"soak%d/%d" % (rec.seed, j)).digest()
+                yield (lambda h=h: one(rec, s, h, v1, r1, s1))
+        soak_then_reprobe(rec, "distinct-hashes", [lambda h=h, sg=sg: one(rec, s, h, sg[0], sg[1], sg[2]) for h, sg in zip(probes_h, sigs0)], distinct_hashes(),
+                          soak_size(["py_ecc.secp256k1.secp256k1"]))
+    else:
+        rec.case("soak:distinct-hashes", None, nontrivial=False)
     # random fill
     for _ in range(1500 if quick else 300000):
         i += 1
